@@ -194,6 +194,15 @@ theorem C02_parallel_ignores_master_witness :
           | some s => eval masterOffAllOn (fun _ => true) s.guard
           | none => false) = true) := by decide
 
+/-- Agent batch driver (`_run_agents_parallel_batch`): either its compute-then-commit path is gated by the perf
+master switch as the validator's warning documents, or a configuration with `perf.enabled = false` opens it. -/
+theorem C02_agents_ignore_master_witness :
+    consistentB allSites agentsMaster = true ∨
+      (masterOffAllOn feat_perf_full.flag = 0 ∧
+        (agentsMaster.any fun p => match allSites[p.1]? with
+          | some s => eval masterOffAllOn (fun _ => true) s.guard
+          | none => false) = true) := by decide
+
 /-- Full `scheduler.*` subtree: every site that breaks its inertness is a reflection site, i.e. runs only
 under `t3.allow_reflection` (it consumes scheduler.budgets.{ops,time_ms}_reflection). -/
 theorem C02_scheduler_full_leak_is_reflection_only :
